@@ -4,6 +4,7 @@
    namespace map recorded for every node by the start-ns/start/end/end-ns stack machine is the map of the
    declarations of its ancestor chain (what the loaded tree reports).  Equivalence of the validators across
    chunks is correspondence (lazy vs eager runs), not a theorem. *)
+From XV Require LazyCtx LazyCtxProofs Mapper.
 From XV Require Import Base Lazy LazyProofs.
 
 Theorem C06_iter_depth_chunks : forall d t, chunks d 0 (cevents t) = at_depth d t.
@@ -45,3 +46,14 @@ Theorem C06_chunk_scope_old_refuted :
   exists t a p, (exists m, scope_at [] t a = Some m /\ ns_get m p <> None) /\ ns_get (scope_chunk_old t a) p = None.
 Proof. exact scope_chunk_old_refuted. Qed.
 Print Assumptions C06_chunk_scope_old_refuted.
+
+(* ---- the namespace mapper across chunks (model: LazyCtx.v over Mapper.v; repairs 574609a and b0a03e4) *)
+Theorem C06_chunk_scope_after_mapper : forall st obj level decls scope,
+  LazyCtx.fresh st obj -> Mapper.ns (LazyCtx.chunk_new st obj level decls scope) = scope.
+Proof. exact LazyCtxProofs.chunk_new_scope. Qed.
+Print Assumptions C06_chunk_scope_after_mapper.
+
+Theorem C06_scope_before_mapper_refuted : exists st obj level decls scope,
+  LazyCtx.fresh st obj /\ Mapper.ns (LazyCtx.chunk_old st obj level decls scope) <> scope.
+Proof. exact LazyCtxProofs.chunk_old_refuted. Qed.
+Print Assumptions C06_scope_before_mapper_refuted.
